@@ -414,11 +414,19 @@ class ParserTable:
         if fi is None:
             raise AnalysisError("anchor vanished: Parser.match_token")
         self.dispatch_fi = fi
-        for n in ast.walk(fi.node):
-            if isinstance(n, ast.Dict):
-                for k, v in zip(n.keys, n.values):
-                    if isinstance(k, ast.Constant) and isinstance(k.value, int) and isinstance(v, ast.Attribute):
-                        self.dispatch[k.value] = v.attr
+        # the table of state methods, wherever the class keeps it (in match_token, a helper returning it, a class attribute);
+        # that match_token really dispatches through it is decided on its normal form (rule_dispatch)
+        holders = [fi.node] + [m.node for m in self.cls.methods.values() if m is not fi] + list(self.cls.class_attrs.values())
+        for h in holders:
+            for n in ast.walk(h):
+                if isinstance(n, ast.Dict) and n.keys and all(isinstance(k, ast.Constant) and isinstance(k.value, int) for k in n.keys) \
+                        and all(isinstance(v, (ast.Attribute, ast.Name)) for v in n.values):
+                    for k, v in zip(n.keys, n.values):
+                        nm = v.attr if isinstance(v, ast.Attribute) else v.id
+                        if nm.startswith("match_token_at_"):
+                            self.dispatch[k.value] = nm
+            if self.dispatch:
+                break
         for n in ast.walk(fi.node):
             if isinstance(n, ast.Raise):
                 self.dispatch_else_raises = True
